@@ -106,7 +106,7 @@ class Walker:
         return hashlib.sha1("\x1f".join(self.out).encode()).hexdigest()
 
 
-_SKIP_FIELDS = {"__weakref__", "__doc__", "__module__", "__dict__", "__annotations__", "__firstlineno__", "__static_attributes__",
+_SKIP_FIELDS = {"re_match", "__weakref__", "__doc__", "__module__", "__dict__", "__annotations__", "__firstlineno__", "__static_attributes__",
                 "__orig_bases__", "__parameters__", "__abstractmethods__", "_abc_impl", "__dataclass_fields__", "__dataclass_params__",
                 "__match_args__"}
 
